@@ -96,6 +96,7 @@ type FuncVC struct {
 	retCount  int
 	bv        bool
 	abstractBSeq bool
+	MathInt      bool // signed overflow obligations were assumed (opt mathint)
 	lastAbs      map[string]Term // abstract accumulator results of the latest call (for after-clauses)
 	usedAxioms map[string]bool
 	defers    []deferred
@@ -271,6 +272,13 @@ func (fv *FuncVC) oblige(kind string, what string, cond Term, pos token.Pos, not
 	trivial := cond.S == "true"
 	if !pos.IsValid() {
 		pos = fv.curPos
+	}
+	if kind == "overflow" && fv.FC != nil && strings.Contains(fv.FC.Opts["opt"], "mathint") {
+		// stated in the contract: machine arithmetic of this function is treated as
+		// mathematical (reported as assumption A-MATHINT for the function)
+		fv.MathInt = true
+		fv.assumeHere(cond)
+		return nil
 	}
 	n := fv.oblCount[base]
 	fv.oblCount[base] = n + 1
@@ -821,6 +829,18 @@ func (fv *FuncVC) heapsOfType(t types.Type) []string {
 		return out
 	}
 	return []string{fv.scalarHeapName(t)}
+}
+
+// isRawElem: t is one of the layout-overlay struct types named in the contract const "rawtypes".
+func (fv *FuncVC) isRawElem(t types.Type) bool {
+	if n, ok := t.(*types.Named); ok {
+		for _, r := range strings.Fields(fv.W.CS.Consts["rawtypes"]) {
+			if n.Obj().Name() == r {
+				return true
+			}
+		}
+	}
+	return false
 }
 
 func (fv *FuncVC) isRaw(v ssa.Value) bool {
